@@ -56,7 +56,7 @@ class DuckDbImpl(SqlImpl):
 
     @classmethod
     def fix_fn_types(cls, fn: sql.ColFn, val: sqa.ColumnElement, *args: sqa.ColumnElement) -> sqa.ColumnElement:
-        if fn.op in (ops.sum, ops.cum_sum):
+        if fn.op in (ops.sum, ops.cum_sum) and not isinstance(args[0].type, sqa.types.NullType):
             return sqa.cast(val, type_=args[0].type)
         return val
 
